@@ -7,6 +7,7 @@ package main
 import (
 	"fmt"
 
+	"verif/corpus"
 	"verif/engine"
 	"verif/fmtx"
 )
@@ -16,6 +17,9 @@ type Case struct {
 	Text string `json:"text"`
 	At   int    `json:"at"`   // insertion offset, -1 = none
 	Kind string `json:"kind"` // inserted comment text
+	// second insertion (pairs of comments): offset in the ORIGINAL text, At2 >= At; -1/0 with empty Kind2 = none
+	At2   int    `json:"at2,omitempty"`
+	Kind2 string `json:"kind2,omitempty"`
 }
 
 var inserts = []string{"/*k*/ ", "//k\n", "# k\n"}
@@ -24,8 +28,14 @@ func (k Case) src() fmtx.Src {
 	if k.At < 0 {
 		return fmtx.Src{Name: k.Name, Text: k.Text}
 	}
+	if k.Kind2 != "" {
+		return fmtx.Src{Name: k.Name, Text: k.Text[:k.At] + k.Kind + k.Text[k.At:k.At2] + k.Kind2 + k.Text[k.At2:]}
+	}
 	return fmtx.Src{Name: k.Name, Text: k.Text[:k.At] + k.Kind + k.Text[k.At:]}
 }
+
+// pairs of comments: the first is always a block comment, the second a block or a line comment
+var pairInserts = [][2]string{{"/*k*/ ", "/*m*/ "}, {"/*k*/ ", "//m\n"}}
 
 func main() {
 	c := engine.New("C21", "exploration")
@@ -37,6 +47,11 @@ func main() {
 	}
 	pool := fmtx.Pool(c.Thorough())
 	maxTok := 40
+	maxPair := 7
+	if c.Thorough() {
+		maxPair = 10
+	}
+	nSeeds := len(corpus.HandSeeds)
 	const B = 32
 	job := &engine.Job{NumBlocks: (len(pool) + B - 1) / B}
 	job.RunBlock = func(w *engine.W, b int) {
@@ -58,7 +73,7 @@ func main() {
 					w.Fail(k, f)
 				}
 			}
-			run(Case{s.Name, s.Text, -1, ""})
+			run(Case{Name: s.Name, Text: s.Text, At: -1})
 			bs := fmtx.Boundaries(s.Text)
 			if len(bs) > maxTok+1 {
 				w.Hist("no_insertion_more_than_40_tokens")
@@ -66,16 +81,28 @@ func main() {
 			}
 			for _, at := range bs {
 				for _, ins := range inserts {
-					run(Case{s.Name, s.Text, at, ins})
+					run(Case{Name: s.Name, Text: s.Text, At: at, Kind: ins})
+				}
+			}
+			// two comments at every pair of boundaries (small sources and all hand seeds): the printer's
+			// comment look-ahead has state that one comment alone does not exercise
+			if len(bs) <= maxPair+1 || i < nSeeds && len(bs) <= 25 {
+				for x, at := range bs {
+					for _, at2 := range bs[x:] {
+						for _, pi := range pairInserts {
+							run(Case{Name: s.Name, Text: s.Text, At: at, Kind: pi[0], At2: at2, Kind2: pi[1]})
+							w.Hist("comment_pairs")
+						}
+					}
 				}
 			}
 			if i%499 == 1 && len(bs) > 2 {
-				w.Sample(Case{s.Name, s.Text, bs[1], inserts[0]})
+				w.Sample(Case{Name: s.Name, Text: s.Text, At: bs[1], Kind: inserts[0]})
 			}
 		}
 	}
 	job.Run(c)
-	c.Rule = fmt.Sprintf("pool of %d sources (hand seeds, enumerated grammar depth 1 quick / 2 thorough, all repository XGo files), each formatted as is; for every source of <= %d tokens additionally one comment of each style {/*k*/, //k, # k} inserted at every token boundary; variants that do not parse are excluded and counted. distinct_nontrivial = formatted variants containing at least one comment", len(pool), maxTok)
+	c.Rule = fmt.Sprintf("pool of %d sources (hand seeds, enumerated grammar depth 1 quick / 2 thorough, all repository XGo files), each formatted as is; for every source of <= %d tokens additionally one comment of each style {/*k*/, //k, # k} inserted at every token boundary; and, for every source of <= %d tokens and every hand seed, two comments (block+block, block+line) at every pair of token boundaries; variants that do not parse are excluded and counted. distinct_nontrivial = formatted variants containing at least one comment", len(pool), maxTok, maxPair)
 	c.Assumptions = []string{"comment texts are compared as sequences after trimming every line (the printer re-indents block comments and strips trailing blanks by design)", "when the output does not parse (C19's business) comments are searched textually, in order"}
 	c.Finish()
 }
